@@ -39,6 +39,7 @@ import (
 	"os/exec"
 	"path/filepath"
 	"regexp"
+	"runtime"
 	"runtime/debug"
 	"strings"
 	"sync"
@@ -289,8 +290,25 @@ func needBinary() {
 	})
 }
 
+// memoryWatchdog ends the process when the heap passes 6 GiB: text that sends
+// the parser into an allocating loop would otherwise take the machine down
+// before any time budget is hit. The journal names the case; the driver then
+// replays it in a fresh process.
+func memoryWatchdog() {
+	var ms runtime.MemStats
+	for {
+		time.Sleep(500 * time.Millisecond)
+		runtime.ReadMemStats(&ms)
+		if ms.HeapAlloc > 6<<30 {
+			fmt.Fprintln(os.Stderr, "verif C10: heap above 6 GiB, giving up on the current case (see journal)")
+			os.Exit(3)
+		}
+	}
+}
+
 func TestMain(m *testing.M) {
 	core.InitMurex()
+	go memoryWatchdog()
 	if d := os.Getenv("VERIF_REPO"); d != "" {
 		repoDir = d
 	}
@@ -662,7 +680,7 @@ func known(c Case, v *core.Violation) string {
 }
 
 var spec = core.Spec[Case]{
-	ID: "C10", Gen: gen, Check: check, Classify: classify, Known: known,
+	ID: "C10", Gen: gen, Check: check, Classify: classify, Known: known, Journal: true,
 }
 
 func TestProp(t *testing.T) { core.RunProp(t, spec) }
